@@ -24,8 +24,8 @@ def plan(ctx):
     k = P.per_interp_shards(ctx)
     for v in ctx.producers:
         if ctx.tier == "quick":
-            cases = P.corpus_cases(ctx, v, n_files=60, n_w3=80, modes=8, max_file_bytes=100000)
-            nexec = 80
+            cases = P.corpus_cases(ctx, v, n_files=150, n_w3=120, modes=20, max_file_bytes=150000)
+            nexec = 160
         else:
             cases = P.corpus_cases(ctx, v, all_files=True, n_w3=1500, modes=200)
             nexec = 3000
